@@ -17,8 +17,46 @@ pub struct Report {
     extra: Mutex<serde_json::Map<String, Value>>,
 }
 
+/// cases finished so far, for the stall watchdog
+static PROGRESS: AtomicU64 = AtomicU64::new(0);
+static WATCHDOG: std::sync::Once = std::sync::Once::new();
+
+/// A case whose library call never returns would make the enumeration hang for ever. If no case finishes for
+/// SEQX_STALL seconds (default 120) the run reports that as a violation (symptom `hang`), prints a capped summary and ends.
+fn start_watchdog() {
+    WATCHDOG.call_once(|| {
+        let limit: u64 = std::env::var("SEQX_STALL").ok().and_then(|s| s.parse().ok()).unwrap_or(120);
+        std::thread::spawn(move || {
+            let mut last = PROGRESS.load(Ordering::Relaxed);
+            let mut idle = 0u64;
+            loop {
+                std::thread::sleep(std::time::Duration::from_secs(2));
+                let now = PROGRESS.load(Ordering::Relaxed);
+                if now != last {
+                    last = now;
+                    idle = 0;
+                    continue;
+                }
+                idle += 2;
+                if idle >= limit && now > 0 {
+                    let so = std::io::stdout();
+                    let mut l = so.lock();
+                    let _ = writeln!(l, "{}", json!({"kind":"violation","features":{"level":"enumerator","symptom":"hang"},
+                        "what": format!("no case finished for {} s after {} cases: a call into the library does not return for a case in flight", limit, now),
+                        "replay": {"engine":"E-SEQ","note":"re-run the check; the enumeration order is fixed"}}));
+                    let _ = writeln!(l, "{}", json!({"kind":"summary","evaluations":now,"distinct_nontrivial":0,"states":0,"transitions":0,"samples":[],
+                        "violations":1,"exhaustive":false,"caps":["stalled: a case in flight does not return"],"rule":"(stalled)","extra":{}}));
+                    let _ = l.flush();
+                    std::process::exit(0);
+                }
+            }
+        });
+    });
+}
+
 impl Report {
     pub fn new() -> Report {
+        start_watchdog();
         Report {
             evaluations: AtomicU64::new(0),
             states: AtomicU64::new(0),
@@ -33,6 +71,7 @@ impl Report {
     }
     pub fn eval(&self, n: u64) {
         self.evaluations.fetch_add(n, Ordering::Relaxed);
+        PROGRESS.fetch_add(n, Ordering::Relaxed);
     }
     pub fn distinct(&self, key: u64) {
         self.distinct.lock().unwrap().insert(key);
